@@ -69,7 +69,7 @@ def replay(o, scratch):
                     except Exception as e:  # noqa
                         s1 = "raised " + type(e).__name__
                     s2 = LRUTrieNode(st, block=b).stem()
-                    if s1 != s2 or bytes(mm.read(b)) != bytes(st.read(b)):
+                    if s1 != s2 or mm.read(b) is None or bytes(mm.read(b)) != bytes(st.read(b)):
                         print("FAILS at block", b, "through map:", repr(s1)[:120], "through file:", repr(s2)[:120])
                         return 1
             finally:
